@@ -288,7 +288,10 @@ def sx(e):
         return e.get('q') or e['name']
     if k == 'This':
         return 'this'
-    if k in ('Int', 'Float', 'Bool', 'Str'):
+    if k == 'Float':
+        v = e.get('v')
+        return float(v) if isinstance(v, int) and not isinstance(v, bool) else v        # a floating literal with an integral value stays a float (1000000000. is not an integer divisor)
+    if k in ('Int', 'Bool', 'Str'):
         return e.get('v')
     if k == 'Construct':
         return ('new:' + short_fn(e['cls']),) + tuple(sx(a) for a in e.get('args', []))
